@@ -20,7 +20,9 @@ import (
 	"github.com/oasisprotocol/oasis-core/go/common/crypto/signature"
 	"github.com/oasisprotocol/oasis-core/go/common/quantity"
 	"github.com/oasisprotocol/oasis-core/go/consensus/api/events"
+	"github.com/oasisprotocol/oasis-core/go/consensus/api/transaction"
 	abciAPI "github.com/oasisprotocol/oasis-core/go/consensus/cometbft/api"
+	consensusGenesis "github.com/oasisprotocol/oasis-core/go/consensus/genesis"
 	governanceState "github.com/oasisprotocol/oasis-core/go/consensus/cometbft/apps/governance/state"
 	registryState "github.com/oasisprotocol/oasis-core/go/consensus/cometbft/apps/registry/state"
 	schedulerState "github.com/oasisprotocol/oasis-core/go/consensus/cometbft/apps/scheduler/state"
@@ -89,6 +91,8 @@ type knobs struct {
 	NearCap        bool  // one validator holds a stake whose power is just below CometBFT's total power cap
 	CapMargin      int64 // distance of the total supply's power from the cap (NearCap)
 	SqrtHuge       bool  // genesis uses the sqrt voting-power distribution and one validator holds 2^100
+	MinGasPrice    uint64 // consensus minimum gas price
+	ByteGas        uint64 // gas cost per transaction byte
 }
 
 func pickBig(r *prng.R, xs ...*big.Int) *big.Int { return xs[r.Intn(len(xs))] }
@@ -141,6 +145,16 @@ func makeKnobs(d histDesc, r *prng.R) *knobs {
 	}
 	if !k.Bypass && !k.NearCap && r.Chance(5) {
 		k.SqrtHuge = true // sqrt genesis with a 2^100 stake: a passed switch to linear is the known finding
+	}
+	k.ByteGas = 1
+	switch x := r.Intn(100); {
+	case x < 20:
+		k.MinGasPrice = 1
+	case x < 35:
+		k.MinGasPrice = 1000
+	}
+	if r.Chance(40) {
+		k.ByteGas = 0
 	}
 	if capMarginFlag >= 0 {
 		k.Bypass, k.Huge, k.Tiny, k.TinyRemainder, k.NearCap, k.CapMargin = false, false, true, 7, true, capMarginFlag
@@ -236,6 +250,8 @@ func (w *world) mutate(doc *genesis.Document) {
 	doc.Scheduler.Parameters.RewardFactorEpochElectionAny = qBig(k.FactorElection)
 	doc.Scheduler.Parameters.MinValidators = k.MinValidators
 	doc.Governance.Parameters.AllowVoteWithoutEntity = k.VoteNoEntity
+	doc.Consensus.Parameters.MinGasPrice = k.MinGasPrice
+	doc.Consensus.Parameters.GasCosts = transaction.Costs{consensusGenesis.GasOpTxByte: transaction.Gas(k.ByteGas)}
 	if w.d.Stream == "roothash" {
 		rtMutate(doc)
 	}
@@ -753,6 +769,20 @@ func (w *world) step(bp *blockPlan) bool {
 			clean = append(clean, t.raw)
 		}
 	}
+	// mempool admission on a node that is not the proposer: mux.CheckTx has no recover, a panic
+	// there crashes every node that receives the transaction
+	if (w.d.Script != "" && w.d.HSeed%2 == 0) || (w.d.Script == "" && w.rng.Chance(30)) {
+		for i, raw := range cand {
+			if _, err := w.obs.CheckTx(raw, false); err != nil {
+				var pe *muxdrv.PanicError
+				if errors.As(err, &pe) {
+					w.fail(h, fmt.Sprintf("panic in CheckTx of transaction %d (%s)", i, bp.txs[i].kind), err)
+					return false
+				}
+			}
+		}
+		w.count("oracle/blocks whose transactions also went through CheckTx")
+	}
 	txs, err := prop.Propose(in, cand)
 	if err != nil {
 		w.fail(h, "panic in PrepareProposal", err)
@@ -986,6 +1016,7 @@ func (w *world) describeKnobs() {
 	w.count("knob-slash/" + sizeClass(k.SlashAmt) + fmt.Sprintf(" freeze=%d", k.Freeze))
 	w.count(fmt.Sprintf("knob-weights/%s:%s:%s", sizeClass(k.Weights[0]), sizeClass(k.Weights[1]), sizeClass(k.Weights[2])))
 	w.count(fmt.Sprintf("knob-threshold/%d over %d", k.ThrNum, k.ThrDen))
+	w.count(fmt.Sprintf("knob-gas/min price %d, per byte %d", k.MinGasPrice, k.ByteGas))
 	w.count(fmt.Sprintf("knob-stake/tiny=%v nearcap=%v", k.Tiny, k.NearCap))
 	w.count(fmt.Sprintf("knob-periods/debond=%d voting=%d interval=%d", k.Debonding, k.VotingPeriod, k.EpochInterval))
 }
